@@ -69,6 +69,12 @@ type shape struct {
 	// Once handler, the Sequential handler]: the Once handler retires (the list shrinks)
 	// while another publisher may be anywhere in it
 	onceBefore bool
+	// unwind: a subscription registered behind the Sequential handler has a filter that
+	// panics for the second event of every publisher; the panic leaves Publish (filters are
+	// the publisher's own code path) and the publisher recovers it, as a request handler of
+	// a server would. Whatever that publish had already arranged for the Sequential handler
+	// must not block the events after it: they are delivered exactly once, and Wait returns
+	unwind bool
 }
 
 type inst struct {
@@ -149,6 +155,14 @@ func (in *inst) Body() {
 	if s.plain {
 		A.SubCustom(bus, func(context.Context, int) {}, nil, evt.SubOpts{})
 	}
+	if s.unwind {
+		A.SubCustom(bus, func(context.Context, int) {}, func(id int) bool {
+			if id%100 == 1 {
+				panic("the filter panics")
+			}
+			return true
+		}, evt.SubOpts{})
+	}
 	for t, n := range s.pubs {
 		t, n := t, n
 		vrt.Go(func() {
@@ -164,6 +178,11 @@ func (in *inst) Body() {
 					A.PubCtx(bus, ctxs[t], id)
 				} else if s.viaAny {
 					A.PubAny(bus, context.Background(), id)
+				} else if s.unwind {
+					func() {
+						defer func() { recover() }()
+						A.Pub(bus, id)
+					}()
 				} else {
 					A.Pub(bus, id)
 				}
@@ -341,6 +360,12 @@ func (in *inst) Check(res *vrt.Result) []vrt.Violation {
 				if in.s.cancelWaiter && cnt[id] == 0 {
 					continue // its context may have been cancelled before it was dispatched
 				}
+				if in.s.unwind && i == 1 {
+					if cnt[id] > 1 {
+						bad("delivery-count", fmt.Sprintf("%s sequential handler received an event %d times", kindOf(in.s), cnt[id]), fmt.Sprintf("handler %d event %d", hid, id))
+					}
+					continue // the publish that unwound: delivered to the handlers before the filter, or not
+				}
 				if in.s.filterRej > 0 && hid == 0 && i == in.s.filterRej-1 {
 					if cnt[id] != 0 {
 						bad("delivery-count", fmt.Sprintf("%s sequential handler received an event its filter rejects", kindOf(in.s)), fmt.Sprintf("handler %d event %d", hid, id))
@@ -418,6 +443,9 @@ func shapes(thorough bool) []shape {
 		{name: "sync/behind-a-plain-and-a-once-handler/2publishers", onceBefore: true, pubs: []int{1, 1}},
 		{name: "sync/behind-a-plain-and-a-once-handler/2+1", onceBefore: true, pubs: []int{2, 1}},
 		{name: "async/behind-a-plain-and-a-once-handler/2publishers", onceBefore: true, async: true, pubs: []int{1, 1}},
+		{name: "async/a-later-filter-panics-and-the-publish-unwinds/one-publisher-3", async: true, unwind: true, pubs: []int{3}},
+		{name: "async/a-later-filter-panics-and-the-publish-unwinds/two-publishers", async: true, unwind: true, pubs: []int{2, 2}},
+		{name: "sync/a-later-filter-panics-and-the-publish-unwinds/two-publishers", unwind: true, pubs: []int{3, 2}},
 		{name: "sync/sequential-handler-publishes-to-another-sequential-handler", nestedSeq: true, pubs: []int{0}},
 		{name: "async/sequential-handler-publishes-to-another-sequential-handler", nestedSeq: true, async: true, pubs: []int{0}},
 		{name: "sync/sequential-handlers-on-two-buses-one-waits-for-the-other", twoBuses: true, pubs: []int{0}},
